@@ -100,7 +100,7 @@ Spec == Init /\ [][Next]_vars
 
 LengthOK == Case.err # "" \/ Len(Tgt) = B(NCmds)
 Report == verdict \in {"running", "ok", "unspecified"} \/
-          PrintT(<<"VERDICT", "C03", verdict, id, n, IF verdict = "assembler-raised" THEN Case.err ELSE ToString(S.pc)>>)
+          PrintT(<<"VERDICT", "C03", verdict, id, n, IF verdict = "assembler-raised" THEN "" ELSE ToString(S.pc)>>)
 Done == verdict # "ok" \/ PrintT(<<"OK", id>>)
 Static == n # 0 \/ LengthOK \/ PrintT(<<"VERDICT", "C03", "target-length", id, 0, "">>)
 =============================================================================
